@@ -21,6 +21,9 @@ claimed = {
  "C01": dict(level="model_checking", engine="E1-sched", technique="stateless model checking of the real sender/receiver pair (controlled scheduler, QUIC model): configuration grid x schedules within the deviation bound, tree-equality oracle on every successful execution",
    text="Same harness as C03. Trees with file sizes around chunk boundaries (0, 1, c-1, c, c+1, 2c, 2c+1, 3c-1 for c in {1,4}), nesting, empty directories and the empty manifest are crossed with streams {1,2,4}, connections {1,2}, resume states (off, fresh, partial, complete, holes, first-chunk, stale longer/shorter files without metadata), latency, both root-directory modes and both scan modes; whenever both sides return nil the output directory must equal the source tree exactly (paths, lengths, bytes, nothing else besides the metadata directory).",
    note="Trusted as for C03. The oracle only judges executions in which both sides report success. The in-memory MockTransport of the test suite is not used by this check (it is exercised by the repository's own tests); QUIC is the vquic model, not real quic-go.", ref="§4 C01"),
+ "C02": dict(level="fault_enumeration", engine="E1-sched", technique="exhaustive fault-position enumeration on the real sender/receiver pair under the controlled scheduler: every byte position of every stream direction x fault kind, each at deviation bound 0 and a stride of positions at bound 1",
+   text="For each workload the fault-free execution yields the byte length of every stream direction (control and data, both ways); then one execution per (stream direction, byte position, fault) with the fault armed exactly there: peer closes with code 0, abrupt path loss (30 s idle timeout), cancel of the sender, cancel of the receiver, bit flip of every checksum and payload byte, source file shrinking or vanishing. Oracle: a side that returns nil implies a complete identical tree; a sender that returns nil implies every file was confirmed; nobody hangs beyond the code's own designed timeouts (11 virtual minutes).",
+   note="Trusted: vquic fault semantics (close => pending and later operations fail, unread data lost; loss => idle timeout). One fault per execution. Obstructed output paths are covered by C07/C15 harnesses, not here. Deviation bound 1 only on a stride of positions in the quick tier.", ref="§4 C02"),
 }
 todo = {}
 props=[json.loads(l) for l in open('/verif/properties.jsonl')]
